@@ -58,3 +58,39 @@ Proof.
   rewrite app_nil_r in Hp. exists m1. split; [exact Hp|]. split; [exact Hm|].
   unfold nf_field. cbn [N.eqb Pos.eqb empty_prodcfg pPacket]. rewrite Hp. reflexivity.
 Qed.
+
+(* ---- the raw header of a flow sample captured at ANY length (what sFlow agents send: the first 64 / 128 / 256 bytes) ----
+   The sample's own columns, and the frame's columns as c10_any_capture_length describes them: the complete frame's
+   value, or left as the sample set them (unset), or a prefix of the label / TTL / segment list; the layer stack a
+   prefix of the frame's layers.  (Holds since fix 5d701ef: the dissector is given the header_length bytes, not the
+   XDR padding behind them.) *)
+From GF Require Import Proofs.FrameCutP Proofs.FrameAnyCutP.
+
+Lemma sample_base_ok rate inif outif flen : base_ok (sample_base rate inif outif flen).
+Proof. repeat split. Qed.
+
+Theorem raw_header_cut_flow_sample f n hdr rate pool drops inif outif flen stripped :
+  wf_frame f = true ->
+  let s := {| sKind := SFlowS; sHdr := hdr; sVals := [rate; pool; drops; inif; outif; 1];
+              sRecs := [mk_header 1 flen stripped (firstn n (encode_frame f))] |} in
+  exists m, convert_sf empty_pcfg s = Ok m /\ cols_ok (sample_base rate inif outif flen) m f /\ layers_ok m f.
+Proof.
+  intros Hwf s. unfold convert_sf, s. cbn [sKind sVals sRecs sf_records]. unfold vv. cbn [nth].
+  unfold mk_header, EncSFlow.mk, fix_rec. cbn [rKind rVals rBlobs rFmt rLists]. unfold sf_record. cbn [rKind rVals rBlobs].
+  unfold vv, bb. cbn [nth N.eqb Pos.eqb].
+  destruct (any_cut_on (sample_base rate inif outif flen) f n Hwf (sample_base_ok rate inif outif flen)) as (m & Hp & Hc & Hl).
+  unfold sample_base in Hp. rewrite Hp. exists m. split; [reflexivity|split; assumption].
+Qed.
+
+Theorem raw_header_cut_expanded_sample f n hdr rate pool drops infmt inif outfmt outif flen stripped :
+  wf_frame f = true ->
+  let s := {| sKind := SExpFlowS; sHdr := hdr; sVals := [rate; pool; drops; infmt; inif; outfmt; outif; 1];
+              sRecs := [mk_header 1 flen stripped (firstn n (encode_frame f))] |} in
+  exists m, convert_sf empty_pcfg s = Ok m /\ cols_ok (sample_base rate inif outif flen) m f /\ layers_ok m f.
+Proof.
+  intros Hwf s. unfold convert_sf, s. cbn [sKind sVals sRecs sf_records]. unfold vv. cbn [nth].
+  unfold mk_header, EncSFlow.mk, fix_rec. cbn [rKind rVals rBlobs rFmt rLists]. unfold sf_record. cbn [rKind rVals rBlobs].
+  unfold vv, bb. cbn [nth N.eqb Pos.eqb].
+  destruct (any_cut_on (sample_base rate inif outif flen) f n Hwf (sample_base_ok rate inif outif flen)) as (m & Hp & Hc & Hl).
+  unfold sample_base in Hp. rewrite Hp. exists m. split; [reflexivity|split; assumption].
+Qed.
